@@ -338,9 +338,13 @@ def abstract_line(geo, blockmap):
     ang = math.radians(geo.permeability_angle)
     bo = geo.block_order
     fields = ['G', str(geo.convention), str(geo.atmosphere_type), qs(geo.atmosphere_volume), qs(geo.atmosphere_connection),
-              '1' if bo == 'dmplex' else '0', qs(tilt[0]), qs(tilt[1]), qs(tilt[2]), qs(math.cos(ang)), qs(math.sin(ang)),
+              # tilt vector: the first two components are exactly GDCX, GDCY in the model (Tilt.v: closed form of
+              # get_tilt_vector); the third, -sqrt(1 - GDCX^2 - GDCY^2), is carried as the double the code computed
+              '1' if bo == 'dmplex' else '0', qs(0.0 if geo.gdcx is None else geo.gdcx), qs(0.0 if geo.gdcy is None else geo.gdcy),
+              qs(tilt[2]), qs(math.cos(ang)), qs(math.sin(ang)),
               ';'.join('%s,%s,%s,%s' % (hx(l.name), qs(l.bottom), qs(l.centre), qs(l.top)) for l in geo.layerlist),
-              ';'.join('%s,%s,%s,%s,%s,%d' % (hx(c.name), qs(c.surface), qs(c.area), qs(c.centre[0]), qs(c.centre[1]), c.num_nodes)
+              ';'.join('%s,%s,%s,%s,%s,%d,%s' % (hx(c.name), qs(c.surface), qs(c.area), qs(c.centre[0]), qs(c.centre[1]), c.num_nodes,
+                                                   '|'.join('%s_%s' % (qs(n.pos[0]), qs(n.pos[1])) for n in c.node))
                        for c in geo.columnlist),
               ';'.join('%d,%d,%s,%s,%s,%s' % (colidx[id(con.column[0])], colidx[id(con.column[1])],
                                                 qs(con.node[0].pos[0]), qs(con.node[0].pos[1]),
@@ -372,7 +376,7 @@ def unhx(s):
 def parse_model(line):
     """-> dict(names, cnames, blocks, conns); each a list or ('RAISE', exn)."""
     parts = line.split('\t')
-    if len(parts) != 4: return None
+    if len(parts) != 5: return None
 
     def sec(p, f):
         if p.startswith('RAISE '): return ('RAISE', p[6:])
@@ -390,8 +394,13 @@ def parse_model(line):
         return (unhx(f[0]), unhx(f[1]), int(f[2]), surd_val(f[3], f[4]), surd_val(f[5], f[6]),
                 surd_val(f[7], f[8]), surd_val(f[9], f[10]))
 
+    def cen(x):
+        if x == 'None': return None
+        f = x.split(':')
+        return (pq(f[0]), pq(f[1]))
+
     return dict(names=sec(parts[0], unhx), cnames=sec(parts[1], lambda x: tuple(unhx(y) for y in x.split(':'))),
-                blocks=sec(parts[2], blk), conns=sec(parts[3], con))
+                blocks=sec(parts[2], blk), conns=sec(parts[3], con), centroids=sec(parts[4], cen))
 
 
 # ----------------------------------------------------------------------------------------
@@ -467,6 +476,24 @@ def compare(geo, blockmap, grid, err, model, sc):
     if isinstance(model['cnames'], tuple): diffs.append('block_connection_name_list: model raises %s' % model['cnames'][1])
     elif [tuple(x) for x in geo.block_connection_name_list] != model['cnames']:
         diffs.append('block_connection_name_list differs: impl %r.. model %r..' % (first_diff([tuple(x) for x in geo.block_connection_name_list], model['cnames'])))
+    # (1a) the defining equation of the third tilt component: tz <= 0 and tz^2 = 1 - GDCX^2 - GDCY^2
+    gx = Fraction(0.0 if geo.gdcx is None else float(geo.gdcx)); gy = Fraction(0.0 if geo.gdcy is None else float(geo.gdcy))
+    tz = Fraction(float(geo.tilt_vector[2]))
+    if gx * gx + gy * gy <= 1 and gy * gy < 1:
+        if tz > 0 or abs(float(tz * tz - (1 - gx * gx - gy * gy))) > 1e-12:
+            diffs.append('tilt_vector[2] = %r: not -sqrt(1 - gdcx^2 - gdcy^2) for gdcx %r gdcy %r' % (float(tz), float(gx), float(gy)))
+    # (1b) geometry.polygon_centroid of the model, from the node positions, against the column's own centroid
+    #      (the model's polygon_area enters every block volume and vertical connection area below)
+    cens = model.get('centroids')
+    if isinstance(cens, tuple) or cens is None or len(cens) != len(geo.columnlist):
+        diffs.append('model centroids malformed')
+    else:
+        for c, m in zip(geo.columnlist, cens):
+            if c.num_nodes < 3: continue
+            ic = c.centroid
+            if m is None or not (close(ic[0], fr2f(m[0]), sc.L) and close(ic[1], fr2f(m[1]), sc.L)):
+                diffs.append('column %r centroid: impl %r model %r' % (c.name, [float(v) for v in ic], None if m is None else [fr2f(v) for v in m]))
+                break
     # (2) the grid
     if err is not None:
         for k in ('blocks', 'conns'):
@@ -543,14 +570,14 @@ def own_block_name(conv, lname, cname):
     return n
 
 
-def shoelace(pts):
+def shoelace(pts, signed=False):
     """Exact (rational) polygon area from raw node coordinates, rounded once at the end."""
     P = [(Fraction(float(p[0])), Fraction(float(p[1]))) for p in pts]
     s = Fraction(0)
     for i in range(len(P)):
         x1, y1 = P[i]; x2, y2 = P[(i + 1) % len(P)]
         s += x1 * y2 - x2 * y1
-    return abs(fr2f(s / 2))
+    return fr2f(s / 2) if signed else abs(fr2f(s / 2))
 
 
 def oracle(geo, blockmap, grid, err, sc, fail):
